@@ -38,8 +38,8 @@ ASSUMPTIONS = [
 ]
 IMPORTS = 'From Abacus.C18 Require Import Spec Gen Run.'
 MANIFEST = {
-    'technique': 'Coq proof (stdlib Reals) about the model regenerated from _unpack_euler16 by tools/gen/c18.py; exhaustive '
-                 'correspondence over all 65 340 codes; interval-arithmetic spot proofs of the generated text',
+    'technique': 'Coq proof (stdlib Reals; coq-interval for the 121 covering boxes) about the model regenerated from _unpack_euler16 by '
+                 'tools/gen/c18.py; exhaustive correspondence over all 65 340 codes; interval-arithmetic spot proofs of the generated text',
     'text': 'Proved in Coq about the definitions regenerated from the source on every run: decompose_bijective (the integer '
             'decomposition inverts the mixed-radix/triangular encoder on exactly the 65 340 valid codes, by lia/nia, all codes); '
             'triad_orthonormal (for ALL real in-cap parameters in range, every real azimuth and each of the 12 caps: unit minor, '
@@ -47,13 +47,19 @@ MANIFEST = {
             'cap_axes_distinct (|xx| < yy < zz, so equal major axes come from the same cap and triple), major_injective '
             '(yy/zz strictly increasing in the ring parameter), minor_injective (azimuth in (0, pi)), hence codes_distinct '
             '(distinct valid codes decode to distinct triads); coverage_partial (every direction with pairwise different '
-            '|components| is, for exactly one sign and one cap, that cap\'s pattern of a triple |x| < y < z).  The ~4 degree '
-            'covering bound is NOT proved (coverage_bound is stated-unproved): it is measured on the implementation by the '
-            'correspondence run (exact spherical-Voronoi covering radius of the 1452 decoded major axes, alarm above 4.5 deg).',
-    'note': 'PARTIAL for the coverage clause (metric bound and in-cap tiling unproved, measured only).  Real-number model: '
-            'Print Assumptions lists exactly the stdlib axioms ClassicalDedekindReals.sig_forall_dec, '
-            'ClassicalDedekindReals.sig_not_dec and FunctionalExtensionality.functional_extensionality_dep (decompose_bijective is '
-            'closed under the global context).  Trusted: the generator tools/gen/c18.py (own ast->R emitter; validated on every '
+            '|components| is, for exactly one sign and one cap, that cap\'s pattern of a triple |x| < y < z) and coverage_bound (every '
+            'unit vector is, up to sign, within 4.5 degrees of the decoded major axis of some valid code: the closed cap patterns '
+            'cover all vectors; the fundamental triangle of a cap is cut into 121 boxes, one per in-cap cell, and coq-interval bounds '
+            'the cosine of the angle between any direction of the box and the cell\'s regenerated axis below by 0.99692 > cos 4.5 '
+            'deg; PCoverBound.v, PCovRingNN.v).  The covering radius is also measured on the implementation by the correspondence '
+            'run (spherical-Voronoi covering radius of the 1452 decoded major axes, about 3.1 deg, alarm above 4.5 deg).',
+    'note': 'All clauses proved (the coverage bound since round 4; it is stated for the cell-by-cell assignment, whose worst case '
+            'is 4.45 deg, not for the nearest axis).  Real-number model: Print Assumptions lists the stdlib axioms '
+            'ClassicalDedekindReals.sig_forall_dec, ClassicalDedekindReals.sig_not_dec and '
+            'FunctionalExtensionality.functional_extensionality_dep (decompose_bijective is closed under the global context); '
+            'coverage_bound additionally lists Classical_Prop.classic and the primitive 63-bit integer operations PrimInt63.* with '
+            'their Uint63.*_spec axioms (standard-library declarations used by coq-interval\'s software floats over Bignums at 60-bit '
+            'precision; primitive floats are NOT used).  Trusted: the generator tools/gen/c18.py (own ast->R emitter; validated on every '
             'run against the implementation on all codes through its NumPy back-end and against the Gallina text by interval '
             'proofs on a sample), float evaluation to 1e-12, decimal reading of float literals, Z.sqrt for floor(sqrt()).',
 }
@@ -545,7 +551,7 @@ def explore(ctx):
         'float_residual': {'oracle_worst': r['worst_residuals'], 'generated_vs_impl_max_abs_diff': r.get('gen_max_abs_diff')},
         'min_triad_separation': r.get('min_triad_separation'), 'min_major_separation': r.get('min_major_separation'),
         'coverage_measured': cov,
-        'stated_unproved': ['coverage_bound (metric ~4 degree covering bound; in-cap tiling): measured on the implementation only'],
+        'stated_unproved': [],
     }
 
 
